@@ -418,13 +418,31 @@ impl ProtocolSet {
             })
             .collect::<FuturesUnordered<_>>();
 
+        // A protocol whose event channel is closed has shut down (e.g. the user dropped its
+        // handle). That must not prevent the remaining protocols from using the connection, so
+        // the connection is refused only if no protocol could be notified.
+        let mut notified = false;
+        let mut first_error = None;
         while !futures.is_empty() {
-            if let Some(Err(error)) = futures.next().await {
-                return Err(error.into());
+            match futures.next().await {
+                Some(Ok(())) => notified = true,
+                Some(Err(error)) => {
+                    tracing::debug!(
+                        target: LOG_TARGET,
+                        ?peer,
+                        ?error,
+                        "failed to report connection established to protocol",
+                    );
+                    first_error.get_or_insert(error);
+                }
+                None => {}
             }
         }
 
-        Ok(())
+        match first_error {
+            Some(error) if !notified => Err(error.into()),
+            _ => Ok(()),
+        }
     }
 
     /// Report to protocols that a connection was closed.
